@@ -152,6 +152,10 @@ def run(tier, seed):
                     ({"k": "part", "v": [["k1", {"k": "str", "v": "y" * 300}], ["k2", {"k": "int", "v": 3}]]}, "fs_tinycache", "normal"),
                     ({"k": "part", "v": [["k1", {"k": "nd", "v": [2.5] * 80, "dtype": "float64", "shape": [80]}]]}, "fs_cache", "normal"),
                     ({"k": "str", "v": "z" * 2000}, "fs_tinycache", "normal"),
+                    ({"k": "npscalar", "v": 3.5, "dtype": "float64"}, "fs", "normal"),
+                    ({"k": "npscalar", "v": 3.5, "dtype": "float64"}, "mem", "normal"),
+                    ({"k": "list", "v": [{"k": "npscalar", "v": 1.5, "dtype": "float64"}, {"k": "int", "v": 2}]}, "fs", "normal"),
+                    ({"k": "part", "v": [["k1", {"k": "npscalar", "v": 4.5, "dtype": "float64"}]]}, "fs", "normal"),
                     ({"k": "odpart", "v": [["k1", {"k": "str", "v": "w" * 40}], ["k2", {"k": "int", "v": 5}]]}, "mem", "normal"),
                     ({"k": "odpart", "v": [["k1", {"k": "nd", "v": [0.5] * 30, "dtype": "float64", "shape": [30]}]]}, "fs", "normal"),
                     ({"k": "odpart", "v": [["k1", {"k": "str", "v": "w" * 400}]]}, "fs_tinycache", "normal"),
